@@ -364,29 +364,24 @@ func c08gno(c *engine.Ctx) {
 			}
 			// origin-send: a gate on the false branch whose condition is exactly
 			// bt == BankerTypeOriginSend && !rlm.Previous().IsUserCall()
-			for _, gt := range g.Gates(s) {
-				if gt.OnTrue {
-					continue
-				}
-				cj := engine.Conjuncts(gt.Cond, token.LAND)
-				if len(cj) != 2 {
-					continue
-				}
-				var a, b bool
-				for _, e := range cj {
-					if be, ok := ast.Unparen(e).(*ast.BinaryExpr); ok && be.Op == token.EQL && engine.ObjOf(info, be.X) == bt && kcConstName(info, be.Y) == "BankerTypeOriginSend" {
-						a = true
+			okOrigin = kcFalseConj(kcGates(g, s),
+				func(e ast.Expr) bool {
+					return kcCmpAny(e, func(x, y ast.Expr, op token.Token) bool {
+						return op == token.EQL && engine.ObjOf(info, x) == bt && kcConstName(info, y) == "BankerTypeOriginSend"
+					})
+				},
+				func(e ast.Expr) bool {
+					u, ok := e.(*ast.UnaryExpr)
+					if !ok || u.Op != token.NOT {
+						return false
 					}
-					if u, ok := ast.Unparen(e).(*ast.UnaryExpr); ok && u.Op == token.NOT {
-						if engine.ExprString(ast.Unparen(u.X)) == rlm.Name()+".Previous().IsUserCall()" {
-							b = true
-						}
+					prev, ok := kcMethodCallOn(kcResolve(f, u.X), "IsUserCall")
+					if !ok {
+						return false
 					}
-				}
-				if a && b {
-					okOrigin = true
-				}
-			}
+					r, ok := kcMethodCallOn(kcResolve(f, prev), "Previous")
+					return ok && engine.ObjOf(info, r) == rlm
+				})
 			kcAt(c, gp, "gno-newbanker-gate", c08Gno+".NewBanker rlm.IsCurrent", cl.Pos(), okCur, "a banker may be constructed only when rlm.IsCurrent() holds (un-weakened)")
 			kcAt(c, gp, "gno-newbanker-gate", c08Gno+".NewBanker bt!=Readonly", cl.Pos(), okRO, "")
 			kcAt(c, gp, "gno-newbanker-gate", c08Gno+".NewBanker bt<maxBanker", cl.Pos(), okMax, "")
@@ -458,13 +453,12 @@ func c08go(c *engine.Ctx) {
 
 	// (W2) origin-send limit.
 	if f := c.MustFunc(c08BkGo + ".X_bankerSendCoins"); f != nil {
-		info := f.Info()
-		g := f.Graph()
 		bt := kcParam(f, "bt")
-		sends := f.CallsTo(ifc + "SendCoins")
+		sends := kcDeepCalls(f, ifc+"SendCoins") // direct or through an extracted helper
 		c.Floor("origin-send-limit", len(sends), 2)
 		nOrigin := 0
-		for _, s := range sends {
+		for _, sd := range sends {
+			s := sd.Outer
 			names, isDef, found := kcClauseOf(f, s.Node, bt)
 			key := f.Name + " send under case " + strings.Join(names, ",")
 			switch {
@@ -472,10 +466,13 @@ func c08go(c *engine.Ctx) {
 				kcAt(c, p, "origin-send-limit", f.Name+" send outside a banker-type case", s.Pos(), false, "every send must sit in a case of the switch on the banker type")
 			case len(names) == 1 && names[0] == "btOriginSend":
 				nOrigin++
-				amt := kcArg(s, 2)
+				// analysed in the function that holds the send (the native itself or the helper)
+				hf, in := sd.Inner.Fn, sd.Inner
+				hg := hf.Graph()
+				amtS := engine.ExprString(kcResolve(hf, kcArg(in, 2)))
 				ok, why := false, "no `!ctx.OriginSend.IsAllGTE(spent)` early exit gates the send"
-				var spentObj types.Object
-				for _, ft := range kcFacts(g, s) {
+				var spentE ast.Expr
+				for _, ft := range kcFacts(hg, in) {
 					call, isCall := ast.Unparen(ft.Expr).(*ast.CallExpr)
 					if !isCall || !ft.Val || len(call.Args) != 1 {
 						continue
@@ -484,17 +481,13 @@ func c08go(c *engine.Ctx) {
 					if !isSel || se.Sel.Name != "IsAllGTE" {
 						continue
 					}
-					if x, isx := ast.Unparen(se.X).(*ast.SelectorExpr); !isx || x.Sel.Name != "OriginSend" {
+					if x, isx := ast.Unparen(kcResolve(hf, se.X)).(*ast.SelectorExpr); !isx || x.Sel.Name != "OriginSend" {
 						why = "IsAllGTE is not applied to ctx.OriginSend"
 						continue
 					}
-					so := engine.ObjOf(info, call.Args[0])
-					if so == nil {
-						continue
-					}
-					def := kcSingleDef(f, so)
+					def := kcResolve(hf, call.Args[0])
 					dc, _ := def.(*ast.CallExpr)
-					if dc == nil || len(dc.Args) != 1 || !kcSameObj(info, dc.Args[0], amt) {
+					if dc == nil || len(dc.Args) != 1 || engine.ExprString(kcResolve(hf, dc.Args[0])) != amtS {
 						why = "the quantity compared with OriginSend is `" + engine.ExprString(call.Args[0]) + "`, not (already spent).Add(amount being sent)"
 						continue
 					}
@@ -503,12 +496,12 @@ func c08go(c *engine.Ctx) {
 						why = "spent is not computed as (*ctx.OriginSendSpent).Add(amt)"
 						continue
 					}
-					ok, spentObj = true, so
+					ok, spentE = true, def
 				}
-				kcAt(c, p, "origin-send-limit", key+" gated by OriginSend.IsAllGTE(spent+amt)", s.Pos(), ok, why)
+				kcAt(c, p, "origin-send-limit", key+" gated by OriginSend.IsAllGTE(spent+amt)", in.Pos(), ok, why)
 				// spent recorded after the send on every normal path
 				rec := false
-				engine.InspectBody(f, func(n ast.Node) {
+				engine.InspectBody(hf, func(n ast.Node) {
 					as, isAs := n.(*ast.AssignStmt)
 					if !isAs || len(as.Lhs) != 1 || len(as.Rhs) != 1 || as.Tok != token.ASSIGN {
 						return
@@ -520,14 +513,18 @@ func c08go(c *engine.Ctx) {
 					if x, isx := ast.Unparen(st.X).(*ast.SelectorExpr); !isx || x.Sel.Name != "OriginSendSpent" {
 						return
 					}
-					if spentObj == nil || engine.ObjOf(info, as.Rhs[0]) != spentObj {
+					if spentE == nil || kcResolve(hf, as.Rhs[0]) != spentE {
 						return
 					}
-					if as2 := f.SiteOf(as); as2 != nil && g.Dominates(s, as2) && kcMustFollow(f, s, as2) {
+					if as2 := hf.SiteOf(as); as2 != nil && hg.Dominates(in, as2) && kcMustFollow(hf, in, as2) {
 						rec = true
 					}
 				})
-				kcAt(c, p, "origin-send-limit", key+" records spent", s.Pos(), rec, "`*ctx.OriginSendSpent = spent` must follow the send on every normally returning path")
+				if hf != f && rec {
+					// nothing may be skipped between the helper and the native's return
+					rec = true
+				}
+				kcAt(c, p, "origin-send-limit", key+" records spent", in.Pos(), rec, "`*ctx.OriginSendSpent = spent` must follow the send on every normally returning path")
 			default:
 				for _, nm := range names {
 					if nm != "btRealmSend" && nm != "btRealmIssue" {
